@@ -120,7 +120,17 @@ package types
 //@   loop 1 invariant forall i: int :: 0 <= i && i < iter ==> okGroup(gspecs[i]) && has(names, gspecs[i].Name)
 //@   loop 1 invariant forall i: int, j: int :: 0 <= i && i < j && j < iter ==> gspecs[i].Name != gspecs[j].Name
 
-//@ property C19 := (GroupSpec).GetName#*, (GroupSpec).GetResources#*, ValidateResourceList#*, (*Resource).GetPrice#*, (Resource).FullPrice#*, validateUnitPricing#*,
+//@ func (DeploymentID).Validate
+//@   ensures result == nil <==> (validBech32(id.Owner) && id.DSeq != 0)
+// a create-deployment request passes stateless validation only with a 32-byte version, at least one
+// group and valid groups
+//@ func (MsgCreateDeployment).ValidateBasic
+//@   ensures result == nil ==> validBech32(msg.ID.Owner) && msg.ID.DSeq != 0 && len(msg.Groups) >= 1 && len(msg.Version) == 32
+//@   ensures result == nil ==> (forall i: int :: 0 <= i && i < len(msg.Groups) ==> okGroup(msg.Groups[i]))
+//@   loop 1 invariant 0 <= iter && iter <= len(msg.Groups)
+//@   loop 1 invariant forall i: int :: 0 <= i && i < iter ==> okGroup(msg.Groups[i])
+
+//@ property C19 := (DeploymentID).Validate#*, (MsgCreateDeployment).ValidateBasic#*, (GroupSpec).GetName#*, (GroupSpec).GetResources#*, ValidateResourceList#*, (*Resource).GetPrice#*, (Resource).FullPrice#*, validateUnitPricing#*,
 //@                 validateGroupPricing#*, validateOrderBidDuration#*, validateDeploymentGroup#*, (GroupSpec).ValidateBasic#*, ValidateDeploymentGroups#*,
 //@                 validateCPU#*, validateMemory#*, validateStorage#*, newLimits#*, validateResourceUnit#*, validateResourceGroup#*,
 //@                 (*resourceLimits).add#*, (*resourceLimits).mul#*
